@@ -5,23 +5,29 @@
      which   which token was manipulated              "cursor" | "call"
      mut     how                                      "none" | "flip" | "trunc" | "extend" | "reencode" (different
              base64 text, same bytes) | "garbage" | "swapkind" (the other kind of token in this slot) |
-             "swapstream" (same kind, same identity, another stream) | "foreignkey" | "crossident" | "absent"
+             "swapstream" (same kind, same identity, another stream) | "foreignkey" | "crossident" | "absent" |
+             "stale" (call token only: genuine and untouched, but minted more than TTL ago while the cursor
+             presented with it is fresh -- a stream kept alive across the TTL; `age` is then the cursor's age)
      age     clock relative to the TTL                "lt" | "eq" | "gt"      (age > TTL is expired)
      cache   state of the worker's call-state cache   "warm" | "cold"
      op      "continue" | "cancel"
+     ttl     "on" (tokens expire after the TTL) | "off" (deployment with token_ttl = 0: expiry disabled, every other
+             rule unchanged -- a reduced grid of ages and manipulations is enough there)
 
    Served(c) -- the only rows that may be served: nothing manipulated and not expired.                       *)
 EXTENDS Naturals, FiniteSets
 Whichs == {"cursor", "call"}
 Muts == {"none", "flip", "trunc", "extend", "reencode", "garbage", "swapkind", "swapstream", "foreignkey",
-         "crossident", "absent"}
+         "crossident", "absent", "stale"}
 Ages == {"lt", "eq", "gt"}
-Cases == [which : Whichs, mut : Muts, age : Ages, cache : {"warm", "cold"}, op : {"continue", "cancel"}]
-Served(c) == c.mut = "none" /\ c.age # "gt"
+Cases == {c \in [which : Whichs, mut : Muts, age : Ages, cache : {"warm", "cold"}, op : {"continue", "cancel"}, ttl : {"on", "off"}] :
+             /\ c.mut = "stale" => (c.which = "call" /\ c.age = "lt" /\ c.ttl = "on")
+             /\ c.ttl = "off" => c.age \in {"lt", "gt"}}
+Served(c) == c.mut = "none" /\ (c.age # "gt" \/ c.ttl = "off")
 Expected(c) == [served |-> Served(c)]
 \* table sanity
 OnlyUntouchedServed(c) == Served(c) => c.mut = "none"
-ExpiredNeverServed(c) == c.age = "gt" => ~Served(c)
+ExpiredNeverServed(c) == (c.ttl = "on" /\ (c.age = "gt" \/ c.mut = "stale")) => ~Served(c)      \* EITHER token beyond the TTL
 CacheIrrelevant(c) == Served(c) = Served([c EXCEPT !.cache = IF c.cache = "warm" THEN "cold" ELSE "warm"])
 
 (* observation o = [served, status, hooks (number of user hooks that ran: process / rehydrate / bind_call_state /
